@@ -258,6 +258,9 @@ func domValset(env *Env) error {
 					if rng.Bool() {
 						sk.Jail(c.Ctx, w.Keys[key].ToConsAddr())
 						what = "jail"
+					} else if rng.Bool() { // the way an operator gets out: MsgUnjail of x/slashing
+						err = w.UnjailMsg(op)
+						what = "unjailmsg"
 					} else {
 						sk.Unjail(c.Ctx, w.Keys[key].ToConsAddr())
 						what = "unjail"
@@ -288,6 +291,7 @@ func domValset(env *Env) error {
 			var active []string
 			if isEnd {
 				cands, active = w.eligibleAtEndBlock()
+				w.jailViewAtEndBlock(env, hist)
 			}
 			var d time.Duration
 			if rng.Chance(2, 3) {
